@@ -276,11 +276,15 @@ func applyBoth(t *tt.TtTable, m *ttModel, o ttOp, check bool) (cls, what string)
 
 func c11Alphabet() []ttOp {
 	k1, k2, k3 := uint64(0x10), uint64(0x10+ttSlots), uint64(0x11) // k1,k2 collide in the index bits; k3 elsewhere
+	k4 := k1 + 1<<32                                                // equal to k1 in the low 32 bits (and the index bits)
 	m1 := CreateMove(SqE2, SqE4, Normal, PtNone)
 	junk := CreateMoveValue(SqG1, SqF3, Normal, PtNone, Value(1234)) // carries sort bits
 	var ops []ttOp
-	for _, k := range []uint64{k1, k2, k3} {
+	for _, k := range []uint64{k1, k2, k3, k4} {
 		for _, mv := range []Move{MoveNone, m1, junk} {
+			if k == k4 && mv != m1 {
+				continue
+			}
 			for _, d := range []int8{0, 1, 2} {
 				for _, v := range []Value{5, -9999} {
 					for _, ty := range []ValueType{EXACT, BETA} {
@@ -435,6 +439,122 @@ func c11Sizes(run *vl.Run, maxMB int) {
 	run.Set("sizes_checked", len(sizes))
 }
 
+// c11RealSize: operation sequences on tables of real size, where Resize really goes through the
+// capacity computation (same capacity: 2 MB -> 3 MB; other capacity: 1 MB, 4 MB) instead of the 4-slot shortcut.
+func c11RealSize(run *vl.Run, depth int) {
+	capOf := func(mb int) uint64 {
+		var c uint64
+		for n := uint64(1); n*16 <= uint64(mb)<<20; n <<= 1 {
+			c = n
+		}
+		return c
+	}
+	kA := uint64(0x1234)
+	kB := kA + capOf(2) // collides with kA at 2 and 3 MB
+	m1 := CreateMove(SqE2, SqE4, Normal, PtNone)
+	type rop struct {
+		name string
+		f    func(t *tt.TtTable, m *ttModel) (string, string)
+	}
+	lookup := func(key uint64, probe bool) func(t *tt.TtTable, m *ttModel) (string, string) {
+		return func(t *tt.TtTable, m *ttModel) (string, string) {
+			var e *tt.TtEntry
+			if probe {
+				e = t.Probe(position.Key(key))
+			} else {
+				e = t.GetEntry(position.Key(key))
+			}
+			me, ok := m.get(key, probe)
+			switch {
+			case e == nil && ok:
+				return "lookup-miss", "resident key not found"
+			case e != nil && !ok:
+				return "lookup-stale-after-resize-or-clear", fmt.Sprintf("lookup of key %#x returns an entry (depth %d) although nothing is stored for it", key, e.Depth)
+			case e != nil && (uint64(e.Key) != me.Key || e.Depth != me.Depth || e.Move.ValueOf() != me.Val):
+				return "lookup-wrong-entry", "returned entry differs from the stored one"
+			}
+			return "", ""
+		}
+	}
+	put := func(key uint64, d int8) func(t *tt.TtTable, m *ttModel) (string, string) {
+		return func(t *tt.TtTable, m *ttModel) (string, string) {
+			t.Put(position.Key(key), m1, d, 7, EXACT, false)
+			replaced := false
+			if e := t.GetEntry(position.Key(key)); e != nil {
+				replaced = true
+			}
+			m.put(key, m1, d, 7, EXACT, replaced)
+			if _, ok := m.get(key, false); ok != replaced {
+				return "replacement-rule", "a store that the stated rule does not permit replaced the resident entry (or a store into an empty slot was dropped)"
+			}
+			return "", ""
+		}
+	}
+	resize := func(mb int) func(t *tt.TtTable, m *ttModel) (string, string) {
+		return func(t *tt.TtTable, m *ttModel) (string, string) {
+			t.Resize(mb)
+			m.Cap = capOf(mb)
+			m.Slots = map[uint64]mEntry{}
+			if c, _ := t.VerifCapacity(); c != m.Cap {
+				return "size:capacity", fmt.Sprintf("Resize(%d) gives %d slots, expected %d", mb, c, m.Cap)
+			}
+			return "", ""
+		}
+	}
+	ops := []rop{{"Put(kA,d2)", put(kA, 2)}, {"Put(kB,d1)", put(kB, 1)}, {"Put(kB,d3)", put(kB, 3)}, {"Probe(kA)", lookup(kA, true)}, {"Probe(kB)", lookup(kB, true)},
+		{"GetEntry(kA)", lookup(kA, false)}, {"Resize(2)", resize(2)}, {"Resize(3)", resize(3)}, {"Resize(1)", resize(1)}, {"Resize(4)", resize(4)},
+		{"Clear", func(t *tt.TtTable, m *ttModel) (string, string) { t.Clear(); m.Slots = map[uint64]mEntry{}; return "", "" }},
+		{"AgeEntries", func(t *tt.TtTable, m *ttModel) (string, string) { t.AgeEntries(); m.age(1); return "", "" }}}
+	var seqs [][]int
+	var gen func(cur []int)
+	gen = func(cur []int) {
+		if len(cur) > 0 {
+			seqs = append(seqs, append([]int{}, cur...))
+		}
+		if len(cur) == depth {
+			return
+		}
+		for i := range ops {
+			gen(append(cur, i))
+		}
+	}
+	gen(nil)
+	var steps int64
+	vl.Parallel(len(seqs), func(si, _ int) {
+		sq := seqs[si]
+		t := tt.NewTtTable(2)
+		m := newModel(capOf(2))
+		var names []string
+		for _, oi := range sq {
+			names = append(names, ops[oi].name)
+			var cls, what string
+			if msg, pan := vl.Guard(func() { cls, what = ops[oi].f(t, m) }); pan {
+				cls, what = "panic:real-size", msg
+			}
+			atomic.AddInt64(&steps, 1)
+			if cls == "" {
+				// count and fill level always equal the number of occupied slots
+				occ := 0
+				for _, e := range t.VerifSlots() {
+					if e.Key != 0 {
+						occ++
+					}
+				}
+				if uint64(occ) != t.Len() || occ != len(m.Slots) {
+					cls, what = "len:real-size", fmt.Sprintf("Len()=%d, %d slots occupied, %d entries stored since the last clear/resize", t.Len(), occ, len(m.Slots))
+				}
+			}
+			if cls != "" {
+				run.Violate(cls, what, map[string]interface{}{"kind": "ops-real-size", "start": "NewTtTable(2)", "ops": names})
+				return
+			}
+		}
+	})
+	run.AddTransitions(steps)
+	run.Set("real_size_sequences", len(seqs))
+	run.Sample(map[string]interface{}{"real_size_ops": []string{"Put(kA,d2)", "Resize(3)", "Probe(kA)"}})
+}
+
 func c11(tier string, args []string) int {
 	run := vl.NewRun("C11", tier)
 	run.Rule("explicit-state BFS over sequences of Put/Probe/GetEntry/AgeEntries/Clear/Resize on a 4-slot table with colliding keys, de-duplicated on the reference-model state, implementation slots/Len/Hashfull compared with the model after every step; complete sweep of all 20001 values x 128 plies through Put/Probe and the mate-distance correction; capacity for all sizes")
@@ -447,6 +567,11 @@ func c11(tier string, args []string) int {
 	c11BFS(run, depth)
 	c11Values(run)
 	c11Sizes(run, maxMB)
+	if tier == "thorough" {
+		c11RealSize(run, 4)
+	} else {
+		c11RealSize(run, 3)
+	}
 	// zero-size table lookups
 	for _, kind := range []string{"probe", "get", "put"} {
 		t := tt.NewTtTable(0)
